@@ -15,15 +15,19 @@ PROPS = {}
 
 PROPS["C20"] = {
     "title": "cache policy never looser (policy combinator)",
-    "files": ["src/registry/cache_control.rs"],
-    "funcs": ["CacheControl::merge (src/registry/cache_control.rs)"],
+    "files": ["src/registry/cache_control.rs", "src/validation/visitors/cache_control.rs"],
+    "funcs": ["CacheControl::merge (src/registry/cache_control.rs)",
+              "CacheControlCalculate::enter_selection_set (src/validation/visitors/cache_control.rs), composed with VisitorCons as in check_rules"],
     "claim": "for every pair/triple of policies (public: bool, max_age: any i32) the real CacheControl::merge is "
              "commutative, associative, idempotent, has the default policy as identity, equals the combination the "
              "property states and is never looser than an operand; folding it over any sequence of up to 5 hints "
              "(max_age >= -1) equals the closed form (private iff any private; no-cache if any no-cache; else the "
-             "minimum positive max-age)",
-    "not_covered": "CacheControlCalculate's walk of the document over a populated registry (which hints get merged "
-                   "for interface/union selections) is outside reach of CBMC here and is not decided",
+             "minimum positive max-age); the real validation visitor CacheControlCalculate, driven over 2 or 3 object types with "
+             "solver-chosen hints, accumulates exactly that combination (the clause 'for selections made only on object types it equals "
+             "exactly that combination')",
+    "not_covered": "(thorough tier decides one field-level hint: c20_field_measures_plain, 6 min / 24 GB) WHICH types and fields "
+                   "the document walk visits over a populated registry (interface/union selections, fragment spreads) are outside reach "
+                   "of CBMC here and are not decided",
     "assumptions": [],
     "harnesses": [
         H("c20::c20_merge_laws", crate="hm", unwind=2, bounds="all (bool,i32)^3"),
@@ -32,6 +36,14 @@ PROPS["C20"] = {
           assumes=["max_age >= -1 (the derive macro emits only n>0, -1 and 0)"]),
         H("c20::c20_fold5", crate="hm", unwind=7, bounds="sequences of 0..=5 policies, max_age any i32 >= -1",
           assumes=["max_age >= -1"], tiers=("thorough",)),
+        H("c20::visitor::c20_visitor_objects2", crate="hm", unwind=5, stubs=[RS],
+          bounds="CacheControlCalculate (composed with VisitorCons) driven over 2 object types with solver-chosen hints (bool, i32 >= -1)",
+          assumes=["max_age >= -1"]),
+        H("c20::visitor::c20_visitor_objects3", crate="hm", unwind=5, stubs=[RS],
+          bounds="the same over 3 object types", assumes=["max_age >= -1"]),
+        H("c20::field::c20_field_measures_plain", crate="hm", unwind=6, cls="L", mem_gb=26, timeout_s=1800, stubs=[FMT, RS], tiers=("thorough",),
+          bounds="the three measuring visitors (composed as in check_rules) over ONE field `f` selected on a parent object type that declares it with a solver-chosen cache hint (bool, i32 >= -1) and its own complexity rule (child + 41)",
+          assumes=["max_age >= -1"]),
     ],
 }
 
@@ -400,14 +412,21 @@ PROPS["C10"] = {
     "claim": "check_recursive_depth rejects exactly when the nesting (0 or 1 wrapper: a field with a sub-selection, an inline fragment) exceeds "
              "the limit, for EVERY usize limit; check_max_directives rejects exactly when a field's directive count (0, 1, 2) exceeds EVERY "
              "usize limit; the real depth and complexity visitors, driven by every "
-             "well-nested script of up to 6 field events, report the maximum nesting and the number of fields",
+             "well-nested script of up to 6 field events, report the maximum nesting and the number of fields; a field's own complexity rule is applied whether "
+             "or not the selection carries an alias (one field under a parent type with a one-entry field table)",
     "not_covered": "nesting deeper than one wrapper and fragment spreads in the limit checks (2-wrapper chains exceed 25 min), the comparison of the measures with "
-                   "the configured limits inside check_rules (needs a registry entry for the root type), custom complexity functions "
-                   "generated by the derive macro, dynamic schemas, 'before any resolver runs'",
+                   "the configured limits inside check_rules (needs a registry entry for the root type), the complexity closures the derive macro "
+                   "generates (arguments, variables), dynamic schemas, 'before any resolver runs'",
     "assumptions": [],
     "harnesses": [
         H("c10::c10_rec_depth_chain_f", crate="hm", unwind=3, cls="L", mem_gb=10, timeout_s=1500, stubs=[FMT, RS], bounds="field{leaf}; every usize limit"),
         H("c10::c10_max_directives_1", crate="hm", unwind=3, cls="L", mem_gb=13, timeout_s=1800, stubs=[FMT, RS], bounds="a field with 1 directive; every usize limit"),
+        H("c20::field::c20_field_measures_alias", crate="hm", unwind=6, cls="L", mem_gb=26, timeout_s=1800, stubs=[FMT, RS], 
+          bounds="the three measuring visitors (composed as in check_rules) over ONE field `x: f` (aliased) selected on a parent object type that declares it with a solver-chosen cache hint (bool, i32 >= -1) and its own complexity rule (child + 41)",
+          assumes=["max_age >= -1"]),
+        H("c20::field::c20_field_measures_plain", crate="hm", unwind=6, cls="L", mem_gb=26, timeout_s=1800, stubs=[FMT, RS], tiers=("thorough",),
+          bounds="the three measuring visitors (composed as in check_rules) over ONE field `f` selected on a parent object type that declares it with a solver-chosen cache hint (bool, i32 >= -1) and its own complexity rule (child + 41)",
+          assumes=["max_age >= -1"]),
         H("c10::c10_depth_complexity2", crate="hm", unwind=8, stubs=[FMT, RS], bounds="every well-nested script of 2 field events"),
         H("c10::c10_depth_complexity4", crate="hm", unwind=8, stubs=[FMT, RS], bounds="every well-nested script of 4 field events"),
         H("c10::c10_depth_complexity6", crate="hm", unwind=8, stubs=[FMT, RS], timeout_s=900, bounds="every well-nested script of 6 field events"),
